@@ -163,8 +163,9 @@ def streams(tier, rng, P, only=None, cases=None):
                "KeyShift(%s) " % N, "v%s " % M, "q%s " % M, "t%s " % M, "t%s " % N, "o%s " % M, "MeasureShift(%s) " % M, "vAdd(%s) " % M, "qAdd(%s) " % M, "v.Random(%s) " % M,
                "t.Random(%s) " % M, "q.Random(%s) " % M, "o.Random(%s) " % M, "INT A=%s; " % M, "TIME(%s) l%%%s " % (M, M), "r%%%s " % M, "r%%%s r%%%s " % (M, M), "Tempo(%s) " % M,
                "CH(%s) " % M, "PB(%s) " % M, "p%s " % M, "BR(%s) " % M, "Slur(1,%s) " % M, "Slur(2,%s) " % M, "Slur(3,%s) " % M, "l.onNote(%s,%s) " % (M, M), "t.onNote(%s,%s) " % (M, N),
-               "o.onNote(%s) " % M, "q.onNote(%s) " % M, "v.onNote(%s) " % M, "v.onTime(%s,%s,96) " % (M, N), "TimeSignature(%s,4) " % M, "RandomSeed(%s) " % M]
-        suf = ["", "c", "c&d e", "'ce' d", "{cd}4", "q++ c", "q-- c", "v++ c", "( c", ") c", "> c", "< c", "` c", '" c', "q__5 c", "v__5 c", "r c", "n60", "n60& n62", "c^c", "l4 c", "[3 c]",
+               "o.onNote(%s) " % M, "q.onNote(%s) " % M, "v.onNote(%s) " % M, "v.onTime(%s,%s,96) " % (M, N), "TimeSignature(%s,4) " % M, "RandomSeed(%s) " % M,
+               "t.Random=4 t%s " % M, "v.Random=4 v%s " % M, "q.Random=4 q%s " % M, "o.Random=4 o%s " % M, "t.Random=4 t%s " % N, "SysEx={%s,%s} " % (M, M), "SysEx$=f0,{%s,%s},f7; " % (M, M)]
+        suf = ["", "c...", "c....", "c..", "c^%" + M + "..", "c^%" + M + "...", "c^%" + M + "....", "r....", "n60,4...", "'ce'4...", "{cd}4....", "l4... c", "c", "c&d e", "'ce' d", "{cd}4", "q++ c", "q-- c", "v++ c", "( c", ") c", "> c", "< c", "` c", '" c', "q__5 c", "v__5 c", "r c", "n60", "n60& n62", "c^c", "l4 c", "[3 c]",
                "Sub{c} d", "PLAY({c},{d})", "TrackSync c", "? c", "y1,5 c", "y1.onNote(1,2) c", "Cresc(1) c", "PB.T(0,1,!8) c", "M.onTime(0,9,9) c", "TempoChange(100,120,!4) c", "TimeSig(3,4) TIME(2:1:0) c"]
         for pi, p_ in enumerate(pre):
             for a in (suf + fr if big else suf + [x for k_, x in enumerate(fr) if (k_ + pi) % 4 == 0]):
